@@ -628,7 +628,7 @@ func TestC18_Model(t *testing.T) {
 		"occurrences singly (reference registry, set of admissible models for duplicate registrations) and in simultaneous bursts of 2..6 (Once at most once, On every time); "+
 		"non-trivial = an Off naming >= 2 handlers, a duplicate registration, or a Once raced by >= 2 occurrences")
 	rapidGuard(t, "C18", c18Check)
-	runRapid(t, c18Check, tierN(3000, 100000), func(t *rapid.T) {
+	runRapid(t, c18Check, tierN(9000, 120000), func(t *rapid.T) {
 		c := genC18Case(t)
 		f, nt := evalC18(c)
 		ev.Case(c, nt, c.Registry)
@@ -759,7 +759,7 @@ func TestC18_OnceBurst(t *testing.T) {
 		"many bursts per rig, with 1..15 On registrations already present and 0..2 Once / one more On registration made while the burst is being dispatched; oracle: each Once handler registered before the "+
 		"burst exactly once per burst, one registered during it at most once, the On handler once per occurrence and registration; non-trivial = every burst case")
 	rapidGuard(t, "C18", c18CheckBurst)
-	runRapid(t, c18CheckBurst, tierN(64, 1600), func(t *rapid.T) {
+	runRapid(t, c18CheckBurst, tierN(160, 2400), func(t *rapid.T) {
 		c := c18BurstCase{Side: rapid.SampledFrom([]string{"server-socket", "client-socket"}).Draw(t, "side"), Bursts: tierV(60, 200),
 			K: rapid.IntRange(2, 16).Draw(t, "k"), Emitters: rapid.IntRange(1, 4).Draw(t, "emitters"), Onces: rapid.IntRange(1, 3).Draw(t, "onces"),
 			Ons: rapid.IntRange(1, 15).Draw(t, "ons"), MidOnces: rapid.IntRange(0, 2).Draw(t, "midOnces"), MidOn: rapid.Bool().Draw(t, "midOn")}
